@@ -15,6 +15,8 @@ VL = ('vload', None)
 
 KEY_SAME_TS = 'stale-entry-same-timestamp'
 KEY_STORE_AFTER_MODIFY = 'store-after-source-modified'
+KEY_COPY_WINDOW = 'cross-device-move-exposes-copy-time-stamp'
+KEYS = (KEY_SAME_TS, KEY_STORE_AFTER_MODIFY, KEY_COPY_WINDOW)
 
 FUNCS = [('giscanner/cachestore.py',
           ['CacheStore._check_cache_version', 'CacheStore._get_filename', 'CacheStore._cache_is_valid',
@@ -35,6 +37,8 @@ def scenarios(tier):
                                                           kills=1), True, 100),
         ('load + store, torn entry, either device layout, 1 crash',
          dict(ops=[L, S], initial_entry='torn', cross_device_option=True, kills=1), True, 100),
+        ('parse-include, modification, load, no entry, either device layout',
+         dict(ops=[PI, M, L], initial_entry=None, cross_device_option=True), True, 140),
         ('2 parse-includes, either device layout, 1 crash', dict(ops=[PI, PI], initial_entry=None,
                                                                cross_device_option=True, kills=1), True, 140),
         ('load + version change + store', dict(ops=[L, P, S], initial_entry='ok'), True, 140),
@@ -92,6 +96,38 @@ def _classify_store_after_modify(text, eng):
     return None
 
 
+def _classify_copy_window(text, eng):
+    """The served entry was being moved into place across devices (truncate + chunked writes, then
+    copystat): written to its temporary file before a modification of the source, copied after it, and
+    validated by the load after a write of the copy and before the copystat that restores the older stamp."""
+    from vlib import sched
+    inf = 10 ** 9
+    for th in eng.threads:
+        res = th.result
+        if not isinstance(res, dict):
+            continue
+        got = res.get('loaded')
+        if not isinstance(got, sched.Parse) or got.by == 'initial':
+            continue
+        if ('operation %d:' % th.idx) not in text:
+            continue
+        by = got.by
+        steps = [x for x in eng.trace if x[0] == 'step']
+        if not any(x[1] == by and x[2] == 'open-trunc' for x in steps):
+            continue
+        reads = [x[4] for x in steps if x[1] == by and x[2] == 'read-src']
+        tmps = [x[4] for x in steps if x[1] == by and x[2] == 'write-tmp']
+        mods = [x[4] for x in steps if x[2] == 'write-src']
+        copies = [x[4] for x in steps if x[1] == by and x[2] == 'write']
+        cstat = min([x[4] for x in steps if x[1] == by and x[2] == 'copystat'] or [inf])
+        fstats = [x[4] for x in steps if x[1] == th.idx and x[2] == 'fstat']
+        for w in mods:
+            if any(r < w for r in reads) and any(t < w for t in tmps) \
+                    and any(w < c < f < cstat for c in copies for f in fstats):
+                return KEY_COPY_WINDOW
+    return None
+
+
 def _worker(args):
     name, sc, fine, tlimit, seed = args
     sys.path.insert(0, common.VERIF)
@@ -101,7 +137,7 @@ def _worker(args):
 
     def classify(text, eng):
         if 'not current at any moment' in text:
-            k = _classify_store_after_modify(text, eng)
+            k = _classify_store_after_modify(text, eng) or _classify_copy_window(text, eng)
             if k:
                 return k
             if not fine and any(x[0] == 'clock' for x in eng.trace):
@@ -281,7 +317,7 @@ def validate_layer(report):
 
 
 def reproduce_known_on_real_fs():
-    """The two recorded finding classes, replayed with the real code on the real file system."""
+    """The recorded finding classes, replayed with the real code on the real file system."""
     out = {}
     r, _ = _real_sequence(['parse_include', 'load'])
     # store-after-modify: parse v1, source modified, store, later load
@@ -301,6 +337,7 @@ cs.store(src, 'parse-of-' + parsed)       # entry written now: newer than the so
 got = cs.load(src)
 print('B', got)
 # same timestamp: entry and a later modification within one timestamp granule
+os.unlink(cs._get_filename(src))
 open(src, 'w').write('v3'); os.utime(src, (t0 + 20, t0 + 20))
 cs.store(src, 'parse-of-v3'); e = cs._get_filename(src); os.utime(e, (t0 + 30, t0 + 30))
 open(src, 'w').write('v4'); os.utime(src, (t0 + 30, t0 + 30))
@@ -314,6 +351,40 @@ shutil.rmtree(d)
     out['same-timestamp: load after store and modification with equal mtime returns'] = \
         [l[2:] for l in p.stdout.splitlines() if l.startswith('S ')]
     out['stderr'] = p.stderr[-300:]
+    # cross-device move: temporary file on another device than the cache directory; a second CacheStore (another
+    # scanner process) loads between the copy and the copystat of shutil.move
+    code_c = r'''
+import os, sys, time, tempfile, shutil
+d = tempfile.mkdtemp(prefix='c18-real-'); other = '/dev/shm'
+if not os.path.isdir(other) or os.stat(other).st_dev == os.stat(d).st_dev:
+    print('C no second device here'); shutil.rmtree(d); sys.exit(0)
+td = tempfile.mkdtemp(prefix='c18-tmp-', dir=other); tempfile.tempdir = td
+os.environ['XDG_CACHE_HOME'] = os.path.join(d, 'cache')
+os.environ.pop('GI_SCANNER_DISABLE_CACHE', None); sys.path.insert(0, %r)
+from giscanner import cachestore
+cachestore._get_versionhash = lambda: 'hash-A'
+src = os.path.join(d, 'Dep-1.0.gir'); t0 = time.time() - 1000
+open(src, 'w').write('v1'); os.utime(src, (t0, t0))
+cs = cachestore.CacheStore(); other_process = cachestore.CacheStore()
+assert cs.load(src) is None
+parsed = open(src).read()
+real_move, real_copystat = shutil.move, shutil.copystat
+def move(a, b, *r, **kw):                  # after the temporary file is written: the source is modified
+    time.sleep(0.05); open(src, 'w').write('v2'); time.sleep(0.05)
+    return real_move(a, b, *r, **kw)
+def copystat(a, b, *r, **kw):              # after the copy, before the stamp of the temporary file is restored
+    print('C during the move:', other_process.load(src))
+    return real_copystat(a, b, *r, **kw)
+shutil.move, shutil.copystat = move, copystat
+cs.store(src, 'parse-of-' + parsed)
+shutil.move, shutil.copystat = real_move, real_copystat
+print('C after the move:', other_process.load(src))
+shutil.rmtree(d); shutil.rmtree(td)
+''' % (common.REPO,)
+    p = subprocess.run([common.REPO_PY, '-c', code_c], capture_output=True, text=True, timeout=120)
+    out['cross-device move: load by another CacheStore (source modified after the temporary file was written)'] = \
+        [l[2:] for l in p.stdout.splitlines() if l.startswith('C ')]
+    out['stderr_c'] = p.stderr[-300:]
     return out
 
 
@@ -364,7 +435,7 @@ def run(report, tier, seed, only=None):
                             sample={'executions': r['runs'], 'max_decisions': r['max_depth']}, **base))
             continue
         for k, v in enumerate(vio):
-            key = v['key'] if v['key'] in (KEY_SAME_TS, KEY_STORE_AFTER_MODIFY) else None
+            key = v['key'] if v['key'] in KEYS else None
             payload = {'property': 'C18', 'engine': 'SCHED', 'scenario': sc, 'fine_clock': fine,
                        'vector': v['vector'], 'text': v['text'], 'trace': v['trace']}
             path = common.write_replay('C18', '%s_%d' % (n, k), payload)
